@@ -31,9 +31,13 @@ def q__sec_to_public_pair(sec, generator=None, strict=True):
             y = from_bytes_32(sec[1 + byte_count:1 + 2 * byte_count])
             if generator and y >= generator.p():
                 raise EncodingError()
+            if generator and (not generator.contains_point(x, y)):
+                raise EncodingError()
+            if sec0 in (b'\x06', b'\x07') and y & 1 != (sec0 == b'\x07'):
+                raise EncodingError()
             return (x, y)
     elif len(sec) == 1 + byte_count:
-        if not strict or sec0 in (b'\x02', b'\x03'):
+        if sec0 in (b'\x02', b'\x03'):
             is_y_odd = sec0 != b'\x02'
             assert generator is not None
             return cast(tuple[int, int], generator.points_for_x(x)[is_y_odd])
